@@ -14,6 +14,9 @@ import (
 type File struct {
 	Header *Header // nil: the stream starts with a data block (a resumed stream)
 	Blocks []*Block
+	// PayloadMut, when set for a block index, rewrites the serialised PrimitiveBlock before it
+	// is wrapped into a (consistent) Blob: damage inside the protobuf payload, framing intact.
+	PayloadMut map[int]func([]byte) []byte
 }
 
 // Header is the OSMHeader block.
